@@ -208,6 +208,20 @@ def run(ctx):
                 r2.ok(key, "guarded by blocks.is_empty() && nb_pkt_sent == 0", loc(s.sp))
             else:
                 r2.violation(key, "a packet with a constant close-object flag is built outside the empty-object case", loc(s.sp))
+            if e[2] is True:
+                # "no block and nothing sent yet" also describes an object whose first block could not be created (read error, encoder refusing the
+                # block): the lone close-object packet is legitimate only for a transfer length of 0 - tested in release builds too
+                rflow = Flow(f.body, drop_debug=True)
+                zero = any(a[0] == "eq" and t and re.search(r"\.transfer_length$", show(a[1]) if show(a[2]) == "0" else show(a[2])) and "0" in (show(a[1]), show(a[2]))
+                           for (a, t) in rflow.facts_at(bb))
+                key2 = "BlockEncoder::read empty-object packet only for transfer_length == 0"
+                if zero:
+                    r2.ok(key2, "dominated by transfer_length == 0 (not only by a debug_assert)", loc(s.sp))
+                else:
+                    r2.violation(key2, "the lone close-object packet (no payload, SBN 0 / ESI 0) is sent whenever no block is open and nothing was sent; that is also "
+                                       "the state after the first block could not be created (stream read error, Reed-Solomon / Raptor encoder error such as "
+                                       "Raptor K < 4): a non-empty object is then announced as closed with none of its symbols (only a debug_assert states "
+                                       "transfer_length == 0, which panics Sender::read in debug builds)", loc(s.sp))
         else:
             srcs = sl.sources(e)
             extra = [z for z in srcs if z.startswith("var:") and not re.match(
